@@ -6,6 +6,7 @@ package main
 import (
 	"fmt"
 	"go/token"
+	"go/types"
 	"strings"
 
 	"golang.org/x/tools/go/ssa"
@@ -137,6 +138,18 @@ func (kr *kindRules) scan(w *World, f *ssa.Function) {
 		switch x := in.(type) {
 		case *ssa.Call:
 			kr.roundCall(w, f, x, pos, roundOrd)
+			// CUTSET: strings.Trim/TrimLeft/TrimRight take a SET of characters; handing them a
+			// piece of ID text (digits, separator) strips digits of the neighbouring field
+			if calleeIs(x, "strings", "TrimLeft") || calleeIs(x, "strings", "TrimRight") || calleeIs(x, "strings", "Trim") {
+				if len(x.Call.Args) == 2 {
+					if cut := ke.Eval(x.Call.Args[1]); cut != nil && cut.StrKnown && len(cut.Str) >= 1 {
+						if txt := ke.Eval(x.Call.Args[0]); txt != nil && txt.StrKnown {
+							callOrd["strings.Trim"]++
+							kr.add("KIND-LAYOUT", f, fmt.Sprintf("cut set #%d", callOrd["strings.Trim"]), pos, Violated, "ID text "+cut.String()+" is used as the character SET of "+calleeOf(x).Name()+" on ID text "+txt.String()+": every leading/trailing digit of the neighbouring field that occurs in the set is stripped too (TrimPrefix/TrimSuffix remove a prefix) -- "+shortInstr(x))
+						}
+					}
+				}
+			}
 			g := calleeOf(x)
 			if g == nil || !w.InModule(g) {
 				return
@@ -366,6 +379,27 @@ func floorDivIdiom(f *ssa.Function, q *ssa.BinOp) bool {
 }
 
 func (kr *kindRules) roundConvert(w *World, f *ssa.Function, x *ssa.Convert, pos string, ord map[string]int) {
+	// NARROW: an index (x, y, f reach 2^35 in magnitude) converted to an integer type of fewer than 64 bits
+	if isIntType(x.Type()) && isIntType(x.X.Type()) {
+		if a := kr.ke.Eval(x.X); a != nil && a.Scalar != 0 && a.Scalar&^ks(kX, kY, kF) == 0 {
+			if dst, ok := x.Type().Underlying().(*types.Basic); ok {
+				bits := 64
+				switch dst.Kind() {
+				case types.Int8, types.Uint8:
+					bits = 8
+				case types.Int16, types.Uint16:
+					bits = 16
+				case types.Int32, types.Uint32:
+					bits = 32
+				}
+				if bits < 64 {
+					ord["narrow"]++
+					kr.add("KIND-STORE", f, fmt.Sprintf("narrowing conversion #%d of a %s index", ord["narrow"], a.Scalar), pos, Violated, fmt.Sprintf("an index of kind %s is converted to %s (%d bits): indices reach 2^35 at zoom 35, the value is silently truncated (%s)", a.Scalar, dst.Name(), bits, shortInstr(x)))
+				}
+			}
+		}
+		return
+	}
 	if !isIntType(x.Type()) || !isFloatType(x.X.Type()) {
 		return
 	}
